@@ -262,17 +262,20 @@ Proof.
   - injection Hd as <-. reflexivity.
 Qed.
 
-(* known message: the stripped record decodes to the same message, reference and environment *)
-Lemma data_known_sim a b l off pay dev d a1 :
-  st_rel a b -> lookup_def (ss_env a) l = Some d -> known_msg (sd_gmn d) = true ->
+(* known message: the stripped record decodes to the same message, reference and environment;
+   stated on what the stripped run finds for that local type, so that both rewritings can use it *)
+Lemma data_known_core a b l off pay dev d a1 :
+  lookup_def (ss_env a) l = Some d -> lookup_def (ss_env b) l = Some (strip_def d) ->
+  ss_ref a = ss_ref b -> ss_msgs a = ss_msgs b -> known_msg (sd_gmn d) = true ->
   denote_data a l off pay dev = Some a1 ->
-  exists b1, denote_data b l off (strip_pay (sd_gmn d) (sd_fds d) pay) [] = Some b1 /\ st_rel a1 b1.
+  exists b1, denote_data b l off (strip_pay (sd_gmn d) (sd_fds d) pay) [] = Some b1 /\
+    ss_env b1 = ss_env b /\ ss_ref a1 = ss_ref b1 /\ ss_msgs a1 = ss_msgs b1.
 Proof.
   destruct a as [env ref msgs ua uf], b as [env' ref' msgs' ub uf'].
-  unfold st_rel. cbn [ss_env ss_ref ss_msgs]. intros (He & <- & <-) Hl Hk Hd.
+  cbn [ss_env ss_ref ss_msgs]. intros Hl Hlb <- <- Hk Hd.
   destruct (denote_data_lengths (mk_sstate env ref msgs ua uf) l off pay dev d a1 Hl Hd) as [Ep _].
   unfold denote_data in *. cbn [ss_env ss_ref ss_msgs ss_unkm ss_unkf] in *.
-  rewrite Hl in Hd. rewrite (He l), Hl. cbn [option_map].
+  rewrite Hl in Hd. rewrite Hlb.
   destruct (negb _ || negb _); [discriminate|].
   assert (E1 : List.length (strip_pay (sd_gmn d) (sd_fds d) pay) = payload_size (strip_def d)).
   { change (payload_size (strip_def d)) with (psize (keep_fds (sd_gmn d) (sd_fds d))).
@@ -290,7 +293,34 @@ Proof.
     match goal with |- context [denote_fields ?x1 ?x2 ?x3 ?x4 ?x5 ?x6 ?x7] =>
       destruct (denote_fields x1 x2 x3 x4 x5 x6 x7) as [[m3 ref3] unl3] end;
     cbn [fst] in Hf; injection Hf as -> ->; injection Hd as <-;
-    (eexists; split; [reflexivity|]); cbn [ss_env ss_ref ss_msgs]; (split; [exact He|split; reflexivity]).
+    (eexists; split; [reflexivity|]); cbn [ss_env ss_ref ss_msgs]; repeat split.
+Qed.
+
+Lemma data_ok_known_core a b l off pay d :
+  lookup_def (ss_env b) l = Some (strip_def d) -> ss_ref a = ss_ref b ->
+  lookup_def (ss_env a) l = Some d -> known_msg (sd_gmn d) = true ->
+  List.length pay = psize (sd_fds d) ->
+  data_ok a l off pay = true -> data_ok b l off (strip_pay (sd_gmn d) (sd_fds d) pay) = true.
+Proof.
+  intros Hlb Hr Hl Hk Ep. unfold data_ok. rewrite Hlb, Hl. rewrite <- Hr.
+  change (sd_gmn (strip_def d)) with (sd_gmn d).
+  change (sd_be (strip_def d)) with (sd_be d). change (sd_fds (strip_def d)) with (keep_fds (sd_gmn d) (sd_fds d)).
+  rewrite Hk, keep_fds_filter, (strip_time_ok _ _ _ _ _ Ep). auto.
+Qed.
+
+Lemma env_rel_some env env' l d : env_rel env env' -> lookup_def env l = Some d -> lookup_def env' l = Some (strip_def d).
+Proof. intros He Hl. rewrite (He l), Hl. reflexivity. Qed.
+
+Lemma data_known_sim a b l off pay dev d a1 :
+  st_rel a b -> lookup_def (ss_env a) l = Some d -> known_msg (sd_gmn d) = true ->
+  denote_data a l off pay dev = Some a1 ->
+  exists b1, denote_data b l off (strip_pay (sd_gmn d) (sd_fds d) pay) [] = Some b1 /\ st_rel a1 b1.
+Proof.
+  intros (He & Hr & Hm) Hl Hk Hd.
+  destruct (data_known_core a b l off pay dev d a1 Hl (env_rel_some _ _ _ _ He Hl) Hr Hm Hk Hd)
+    as (b1 & Eb & Henvb & Hr1 & Hm1).
+  destruct (denote_data_lengths a l off pay dev d a1 Hl Hd) as [_ Henva].
+  exists b1. split; [exact Eb|]. unfold st_rel. rewrite Henva, Henvb. auto.
 Qed.
 
 Lemma data_ok_known_sim a b l off pay d :
@@ -298,10 +328,7 @@ Lemma data_ok_known_sim a b l off pay d :
   List.length pay = psize (sd_fds d) ->
   data_ok a l off pay = true -> data_ok b l off (strip_pay (sd_gmn d) (sd_fds d) pay) = true.
 Proof.
-  intros (He & Hr & Hm) Hl Hk Ep. unfold data_ok. rewrite (He l), Hl. cbn [option_map]. rewrite <- Hr.
-  change (sd_gmn (strip_def d)) with (sd_gmn d).
-  change (sd_be (strip_def d)) with (sd_be d). change (sd_fds (strip_def d)) with (keep_fds (sd_gmn d) (sd_fds d)).
-  rewrite Hk, keep_fds_filter, (strip_time_ok _ _ _ _ _ Ep). auto.
+  intros (He & Hr & Hm) Hl. apply data_ok_known_core; try assumption. exact (env_rel_some _ _ _ _ He Hl).
 Qed.
 
 (* unknown message, plain record: deleting it leaves the related state related *)
@@ -452,49 +479,46 @@ Proof.
   apply andb_true_intro. split; apply N.ltb_lt; [destruct devflag; lia|lia].
 Qed.
 
+Lemma all_bytes_cons x l : all_bytes (x :: l) = is_byte x && all_bytes l.
+Proof. reflexivity. Qed.
+
+(* the bytes of a data record whose payload shrank to [pay'] and whose developer bytes are gone *)
+Lemma all_bytes_shrink x pay dev pay' :
+  (all_bytes pay = true -> all_bytes pay' = true) ->
+  all_bytes (x :: pay ++ dev) = true -> all_bytes (x :: pay' ++ []) = true.
+Proof.
+  intros Hp. rewrite !all_bytes_cons, !all_bytes_app_eq. intros H. apply andb_prop in H. destruct H as [H1 H2].
+  apply andb_prop in H2. destruct H2 as [H2 _]. rewrite H1, (Hp H2). reflexivity.
+Qed.
+
 Lemma rec_wf_data l pay dev gmn fds :
   rec_wf (RData l pay dev) = true -> rec_wf (RData l (strip_pay gmn fds pay) []) = true.
 Proof.
-  unfold rec_wf. rewrite !andb_true_r. cbn [ser_record]. unfold all_bytes at 1 3. cbn [forallb].
-  fold (all_bytes (pay ++ dev)). fold (all_bytes (strip_pay gmn fds pay ++ [])).
-  rewrite !all_bytes_app_eq. intros H. apply andb_prop in H. destruct H as [H1 H2].
-  apply andb_prop in H2. destruct H2 as [H2 _].
-  rewrite H1, (all_bytes_strip_pay _ _ _ H2). reflexivity.
+  unfold rec_wf. rewrite !andb_true_r. cbn [ser_record]. apply all_bytes_shrink. apply all_bytes_strip_pay.
 Qed.
 
 Lemma rec_wf_data_nodev l pay dev : rec_wf (RData l pay dev) = true -> rec_wf (RData l pay []) = true.
 Proof.
-  unfold rec_wf. rewrite !andb_true_r. cbn [ser_record]. unfold all_bytes at 1 3. cbn [forallb].
-  fold (all_bytes (pay ++ dev)). fold (all_bytes (pay ++ [])).
-  rewrite !all_bytes_app_eq. intros H. apply andb_prop in H. destruct H as [H1 H2].
-  apply andb_prop in H2. destruct H2 as [H2 _]. rewrite H1, H2. reflexivity.
+  unfold rec_wf. rewrite !andb_true_r. cbn [ser_record]. apply all_bytes_shrink. auto.
 Qed.
 
 Lemma rec_wf_comp l off pay dev gmn fds :
   rec_wf (RComp l off pay dev) = true -> rec_wf (RComp l off (strip_pay gmn fds pay) []) = true.
 Proof.
   unfold rec_wf. intros H. apply andb_prop in H. destruct H as [H Ho]. rewrite Ho, andb_true_r.
-  cbn [ser_record] in *. unfold all_bytes in H |- *. cbn [forallb] in H |- *.
-  fold (all_bytes (pay ++ dev)) in H. fold (all_bytes (strip_pay gmn fds pay ++ [])).
-  rewrite !all_bytes_app_eq in *. apply andb_prop in H. destruct H as [H1 H2].
-  apply andb_prop in H2. destruct H2 as [H2 _].
-  rewrite H1, (all_bytes_strip_pay _ _ _ H2). reflexivity.
+  cbn [ser_record] in *. revert H. apply all_bytes_shrink. apply all_bytes_strip_pay.
 Qed.
 
 Lemma rec_wf_comp_nodev l off pay dev : rec_wf (RComp l off pay dev) = true -> rec_wf (RComp l off pay []) = true.
 Proof.
   unfold rec_wf. intros H. apply andb_prop in H. destruct H as [H Ho]. rewrite Ho, andb_true_r.
-  cbn [ser_record] in *. unfold all_bytes in H |- *. cbn [forallb] in H |- *.
-  fold (all_bytes (pay ++ dev)) in H. fold (all_bytes (pay ++ [])).
-  rewrite !all_bytes_app_eq in *. apply andb_prop in H. destruct H as [H1 H2].
-  apply andb_prop in H2. destruct H2 as [H2 _]. rewrite H1, H2. reflexivity.
+  cbn [ser_record] in *. revert H. apply all_bytes_shrink. auto.
 Qed.
 
 Lemma rec_wf_comp_bare l off pay dev : rec_wf (RComp l off pay dev) = true -> rec_wf (RComp l off [] []) = true.
 Proof.
   unfold rec_wf. intros H. apply andb_prop in H. destruct H as [H Ho]. rewrite Ho, andb_true_r.
-  cbn [ser_record app] in *. unfold all_bytes in H |- *. cbn [forallb] in H |- *.
-  apply andb_prop in H. destruct H as [H1 _]. rewrite H1. reflexivity.
+  cbn [ser_record] in *. revert H. apply all_bytes_shrink. auto.
 Qed.
 
 Theorem strip_stream_wf : forall rs env, stream_wf rs = true -> stream_wf (strip env rs) = true.
@@ -524,3 +548,321 @@ Proof.
   cbn [strip]. rewrite lookup_def_cons, N.eqb_refl. cbn [sd_gmn]. rewrite known_fileid.
   cbn [starts_with_file_id]. rewrite !N.eqb_refl. reflexivity.
 Qed.
+
+(* ------------------------------------------------------------ the stripped stream holds no unknown content *)
+
+Definition no_bytes (l : list N) : bool := match l with [] => true | _ :: _ => false end.
+
+(* every field of every definition is listed -- so the definition of an unknown message is empty --,
+   there are no developer fields and no developer bytes, no plain data record addresses an unknown
+   message and a compressed one that does is a bare header *)
+Fixpoint clean_from (env : list (N * sdef)) (rs : list record) : bool :=
+  match rs with
+  | [] => true
+  | r :: rest =>
+      match r with
+      | RDef l be gmn fds devflag devs =>
+          forallb (listed gmn) fds && negb devflag && (match devs with [] => true | _ :: _ => false end) &&
+          clean_from ((l, mk_sdef be gmn fds 0%nat) :: env) rest
+      | RData l pay dev =>
+          no_bytes dev && (match lookup_def env l with Some d => known_msg (sd_gmn d) | None => true end) &&
+          clean_from env rest
+      | RComp l off pay dev =>
+          no_bytes dev &&
+          (match lookup_def env l with Some d => known_msg (sd_gmn d) || no_bytes pay | None => true end) &&
+          clean_from env rest
+      end
+  end.
+Definition clean (rs : list record) : bool := clean_from [] rs.
+
+Lemma clean_unknown_def_empty gmn fds : known_msg gmn = false -> forallb (listed gmn) fds = true -> fds = [].
+Proof.
+  intros Hk H. destruct fds as [|f r]; [reflexivity|]. cbn [forallb] in H. apply andb_prop in H. destruct H as [H _].
+  rewrite (listed_known gmn f H) in Hk. discriminate.
+Qed.
+
+Lemma strip_clean_from : forall rs env env', env_rel env env' -> clean_from env' (strip env rs) = true.
+Proof.
+  induction rs as [|r rs IH]; intros env env' He; [reflexivity|].
+  destruct r as [l be gmn fds devflag devs | l pay dev | l off pay dev]; cbn [strip].
+  - cbn [clean_from negb andb]. rewrite keep_fds_filter, forallb_filter_same. cbn [andb].
+    apply IH. rewrite <- keep_fds_filter. apply env_rel_cons. exact He.
+  - destruct (lookup_def env l) as [d|] eqn:El; [destruct (known_msg (sd_gmn d)) eqn:Ek|].
+    + cbn [clean_from no_bytes andb]. rewrite (He l), El. cbn [option_map].
+      change (sd_gmn (strip_def d)) with (sd_gmn d). rewrite Ek. cbn [andb]. apply IH. exact He.
+    + apply IH. exact He.
+    + cbn [clean_from no_bytes andb]. rewrite (He l), El. cbn [option_map andb]. apply IH. exact He.
+  - destruct (lookup_def env l) as [d|] eqn:El; [destruct (known_msg (sd_gmn d)) eqn:Ek|].
+    + cbn [clean_from no_bytes andb]. rewrite (He l), El. cbn [option_map].
+      change (sd_gmn (strip_def d)) with (sd_gmn d). rewrite Ek. cbn [orb andb]. apply IH. exact He.
+    + cbn [clean_from no_bytes andb]. rewrite (He l), El. cbn [option_map]. rewrite orb_true_r. cbn [andb].
+      apply IH. exact He.
+    + cbn [clean_from no_bytes andb]. rewrite (He l), El. cbn [option_map andb]. apply IH. exact He.
+Qed.
+
+Theorem strip_clean : forall rs, clean (strip [] rs) = true.
+Proof. intros rs. apply strip_clean_from. exact env_rel_nil. Qed.
+
+(* ------------------------------------------------------------ decoder level *)
+
+(* the domain of the stream theorem is closed under stripping *)
+Theorem strip_in_domain : forall h g rs, in_domain h g rs -> in_domain h g (strip [] rs).
+Proof.
+  intros h g rs (Hs & Hwf & Hq & ss & f2 & g1 & Hden & Hst).
+  destruct (unknown_skipped rs ss Hden) as (ss' & Hden' & Hm & _).
+  split; [exact (strip_starts_with_file_id rs Hs)|].
+  split; [exact (strip_stream_wf rs [] Hwf)|].
+  split; [exact (strip_no_time_quirk rs ss Hden Hq)|].
+  exists ss', f2, g1. split; [exact Hden'|]. rewrite Hm. exact Hst.
+Qed.
+
+(* C02 unknown_skipped on the decoder model: the File decoded from the stripped stream is the File decoded
+   from the original *)
+Theorem unknown_skipped_decoder : forall o h g rs, in_domain h g rs ->
+  decoded_file o h g (strip [] rs) = decoded_file o h g rs.
+Proof.
+  intros o h g rs D. pose proof (strip_in_domain h g rs D) as D'.
+  pose proof D as (_ & _ & _ & ss & _ & _ & Hden & _).
+  destruct (unknown_skipped rs ss Hden) as (ss' & Hden' & Hm & _).
+  exact (same_messages_same_file o h g (strip [] rs) rs ss' ss D' D Hden' Hden Hm).
+Qed.
+
+(* and that File is not an error *)
+Corollary unknown_skipped_decoder_ok : forall o h g rs, in_domain h g rs ->
+  decoded_file o h g (strip [] rs) <> None.
+Proof.
+  intros o h g rs D. rewrite (unknown_skipped_decoder o h g rs D).
+  pose proof D as (_ & _ & _ & ss & _ & _ & Hden & _).
+  exact (proj2 (decoded_is_routed o h g rs ss D Hden)).
+Qed.
+
+(* ------------------------------------------------------------ variant: the definitions of unknown messages go, too *)
+
+(* Sound when no compressed-timestamp record addresses an unknown message (such a record advances the time
+   reference and cannot go; with it gone its definition could go as well, but then a later record of that local
+   type would meet an older definition). *)
+Fixpoint strip_all (env : list (N * sdef)) (rs : list record) : list record :=
+  match rs with
+  | [] => []
+  | r :: rest =>
+      match r with
+      | RDef l be gmn fds devflag devs =>
+          if known_msg gmn then
+            RDef l be gmn (keep_fds gmn fds) false [] ::
+            strip_all ((l, mk_sdef be gmn fds (dev_size (if devflag then devs else []))) :: env) rest
+          else strip_all ((l, mk_sdef be gmn fds (dev_size (if devflag then devs else []))) :: env) rest
+      | RData l pay dev =>
+          match lookup_def env l with
+          | Some d =>
+              if known_msg (sd_gmn d) then RData l (strip_pay (sd_gmn d) (sd_fds d) pay) [] :: strip_all env rest
+              else strip_all env rest
+          | None => RData l pay [] :: strip_all env rest
+          end
+      | RComp l off pay dev =>
+          match lookup_def env l with
+          | Some d => RComp l off (strip_pay (sd_gmn d) (sd_fds d) pay) [] :: strip_all env rest
+          | None => RComp l off pay [] :: strip_all env rest
+          end
+      end
+  end.
+
+Fixpoint no_unknown_comp (env : list (N * sdef)) (rs : list record) : bool :=
+  match rs with
+  | [] => true
+  | r :: rest =>
+      match r with
+      | RDef l be gmn fds devflag devs =>
+          no_unknown_comp ((l, mk_sdef be gmn fds (dev_size (if devflag then devs else []))) :: env) rest
+      | RData l pay dev => no_unknown_comp env rest
+      | RComp l off pay dev =>
+          (match lookup_def env l with Some d => known_msg (sd_gmn d) | None => true end) && no_unknown_comp env rest
+      end
+  end.
+
+(* the stripped run knows the stripped definition of every local type that currently holds a known message *)
+Definition env_relk (env env' : list (N * sdef)) : Prop :=
+  forall l d, lookup_def env l = Some d -> known_msg (sd_gmn d) = true -> lookup_def env' l = Some (strip_def d).
+
+Definition st_relk (a b : sstate) : Prop :=
+  env_relk (ss_env a) (ss_env b) /\ ss_ref a = ss_ref b /\ ss_msgs a = ss_msgs b.
+
+Lemma st_relk_init : st_relk ss_init ss_init.
+Proof.
+  unfold st_relk. cbn [ss_init ss_env ss_ref ss_msgs]. split; [|split; reflexivity].
+  intros l d Hl. discriminate.
+Qed.
+
+Lemma env_relk_cons_known env env' l be gmn fds ds :
+  env_relk env env' ->
+  env_relk ((l, mk_sdef be gmn fds ds) :: env) ((l, mk_sdef be gmn (keep_fds gmn fds) 0%nat) :: env').
+Proof.
+  intros He l' d. rewrite !lookup_def_cons. destruct (l =? l'); [|apply He].
+  intros Hd _. injection Hd as <-. reflexivity.
+Qed.
+
+Lemma env_relk_cons_unknown env env' l be gmn fds ds :
+  known_msg gmn = false -> env_relk env env' -> env_relk ((l, mk_sdef be gmn fds ds) :: env) env'.
+Proof.
+  intros Hk He l' d. rewrite lookup_def_cons. destruct (l =? l'); [|apply He].
+  intros Hd Hkd. injection Hd as <-. cbn [sd_gmn] in Hkd. rewrite Hkd in Hk. discriminate.
+Qed.
+
+Lemma def_step a l be gmn fds devflag devs a1 :
+  denote_record a (RDef l be gmn fds devflag devs) = Some a1 ->
+  a1 = mk_sstate ((l, mk_sdef be gmn fds (dev_size (if devflag then devs else []))) :: ss_env a)
+         (ss_ref a) (ss_msgs a) (ss_unkm a) (ss_unkf a) /\
+  forall b, denote_record b (RDef l be gmn (keep_fds gmn fds) false []) =
+    Some (mk_sstate ((l, mk_sdef be gmn (keep_fds gmn fds) 0%nat) :: ss_env b)
+            (ss_ref b) (ss_msgs b) (ss_unkm b) (ss_unkf b)).
+Proof.
+  intros Ha. cbn [denote_record] in *.
+  destruct (16 <=? l); [discriminate|]. destruct (gmn =? c_MesgNumInvalid); [discriminate|].
+  cbn [orb] in *.
+  destruct (forallb (compat gmn) fds) eqn:Ec; [|discriminate]. cbn [negb] in Ha.
+  injection Ha as <-. split; [reflexivity|]. intros b.
+  rewrite keep_fds_filter, (forallb_filter _ _ _ Ec). reflexivity.
+Qed.
+
+Theorem strip_all_sim : forall rs a b a',
+  st_relk a b -> no_unknown_comp (ss_env a) rs = true -> denote_from a rs = Some a' ->
+  exists b', denote_from b (strip_all (ss_env a) rs) = Some b' /\ st_relk a' b' /\
+    (no_time_quirk_from a rs = true -> no_time_quirk_from b (strip_all (ss_env a) rs) = true).
+Proof.
+  induction rs as [|r rs IH]; intros a b a' Hrel Hnc Hden.
+  - cbn [denote_from strip_all no_time_quirk_from] in *. injection Hden as <-. exists b. auto.
+  - cbn [denote_from] in Hden. destruct (denote_record a r) as [a1|] eqn:Ea; [|discriminate].
+    cbn [no_time_quirk_from]. rewrite Ea.
+    destruct r as [l be gmn fds devflag devs | l pay dev | l off pay dev]; cbn [no_unknown_comp] in Hnc.
+    + (* definition *)
+      destruct (def_step a l be gmn fds devflag devs a1 Ea) as [Ea1 Eb].
+      assert (Henv : ss_env a1 = (l, mk_sdef be gmn fds (dev_size (if devflag then devs else []))) :: ss_env a)
+        by (rewrite Ea1; reflexivity).
+      destruct Hrel as (He & Hr & Hm).
+      cbn [strip_all]. rewrite <- Henv in Hnc |- *. destruct (known_msg gmn) eqn:Ek.
+      * assert (Hrel1 : st_relk a1 (mk_sstate ((l, mk_sdef be gmn (keep_fds gmn fds) 0%nat) :: ss_env b)
+                                      (ss_ref b) (ss_msgs b) (ss_unkm b) (ss_unkf b))).
+        { rewrite Ea1. unfold st_relk. cbn [ss_env ss_ref ss_msgs]. split; [|auto].
+          apply env_relk_cons_known. exact He. }
+        destruct (IH a1 _ a' Hrel1 Hnc Hden) as (b' & Hb' & Hrel' & Hq').
+        exists b'. cbn [denote_from no_time_quirk_from]. rewrite (Eb b).
+        split; [exact Hb'|]. split; [exact Hrel'|].
+        intros Hq. apply andb_prop in Hq. destruct Hq as [_ Hq]. cbn [record_time_ok andb]. exact (Hq' Hq).
+      * assert (Hrel1 : st_relk a1 b).
+        { rewrite Ea1. unfold st_relk. cbn [ss_env ss_ref ss_msgs]. split; [|auto].
+          apply env_relk_cons_unknown; assumption. }
+        destruct (IH a1 b a' Hrel1 Hnc Hden) as (b' & Hb' & Hrel' & Hq').
+        exists b'. split; [exact Hb'|]. split; [exact Hrel'|].
+        intros Hq. apply andb_prop in Hq. destruct Hq as [_ Hq]. exact (Hq' Hq).
+    + (* plain data record *)
+      cbn [denote_record] in Ea. rewrite record_time_ok_data. cbn [strip_all].
+      destruct (lookup_def (ss_env a) l) as [d|] eqn:El.
+      2:{ unfold denote_data in Ea. rewrite El in Ea. discriminate. }
+      destruct (denote_data_lengths a l None pay dev d a1 El Ea) as [Ep Henv].
+      pose proof Hrel as (He & Hr & Hm).
+      rewrite <- Henv in Hnc |- *.
+      destruct (known_msg (sd_gmn d)) eqn:Ek.
+      * destruct (data_known_core a b l None pay dev d a1 El (He l d El Ek) Hr Hm Ek Ea)
+          as (b1 & Eb & Henvb & Hr1 & Hm1).
+        assert (Hrel1 : st_relk a1 b1) by (unfold st_relk; rewrite Henv, Henvb; auto).
+        destruct (IH a1 b1 a' Hrel1 Hnc Hden) as (b' & Hb' & Hrel' & Hq').
+        exists b'. cbn [denote_from no_time_quirk_from denote_record]. rewrite Eb.
+        split; [exact Hb'|]. split; [exact Hrel'|].
+        intros Hq. apply andb_prop in Hq. destruct Hq as [Hq0 Hq]. rewrite record_time_ok_data.
+        rewrite (data_ok_known_core a b l None pay d (He l d El Ek) Hr El Ek Ep Hq0). cbn [andb]. exact (Hq' Hq).
+      * assert (Hrel1 : st_relk a1 b).
+        { rewrite (unknown_data_skipped a l pay dev d a1 El Ek Ea). unfold st_relk. cbn [ss_env ss_ref ss_msgs]. auto. }
+        destruct (IH a1 b a' Hrel1 Hnc Hden) as (b' & Hb' & Hrel' & Hq').
+        exists b'. split; [exact Hb'|]. split; [exact Hrel'|].
+        intros Hq. apply andb_prop in Hq. destruct Hq as [_ Hq]. exact (Hq' Hq).
+    + (* compressed-timestamp data record: of a known message, as assumed *)
+      cbn [denote_record] in Ea. rewrite record_time_ok_comp. cbn [strip_all].
+      destruct (4 <=? l) eqn:E4; [discriminate|].
+      destruct (lookup_def (ss_env a) l) as [d|] eqn:El.
+      2:{ unfold denote_data in Ea. rewrite El in Ea. discriminate. }
+      apply andb_prop in Hnc. destruct Hnc as [Ek Hnc].
+      destruct (denote_data_lengths a l (Some off) pay dev d a1 El Ea) as [Ep Henv].
+      pose proof Hrel as (He & Hr & Hm).
+      rewrite <- Henv in Hnc |- *.
+      destruct (data_known_core a b l (Some off) pay dev d a1 El (He l d El Ek) Hr Hm Ek Ea)
+        as (b1 & Eb & Henvb & Hr1 & Hm1).
+      assert (Hrel1 : st_relk a1 b1) by (unfold st_relk; rewrite Henv, Henvb; auto).
+      destruct (IH a1 b1 a' Hrel1 Hnc Hden) as (b' & Hb' & Hrel' & Hq').
+      exists b'. cbn [denote_from no_time_quirk_from denote_record]. rewrite E4, Eb.
+      split; [exact Hb'|]. split; [exact Hrel'|].
+      intros Hq. apply andb_prop in Hq. destruct Hq as [Hq0 Hq]. rewrite record_time_ok_comp.
+      rewrite (data_ok_known_core a b l (Some off) pay d (He l d El Ek) Hr El Ek Ep Hq0). cbn [andb]. exact (Hq' Hq).
+Qed.
+
+Theorem unknown_skipped_all : forall rs ss, no_unknown_comp [] rs = true -> denote rs = Some ss ->
+  exists ss', denote (strip_all [] rs) = Some ss' /\ ss_msgs ss' = ss_msgs ss /\ ss_ref ss' = ss_ref ss.
+Proof.
+  intros rs ss Hnc Hden. unfold denote in *.
+  destruct (strip_all_sim rs ss_init ss_init ss st_relk_init Hnc Hden) as (ss' & Hden' & (_ & Hr & Hm) & _).
+  exists ss'. cbn [ss_init ss_env] in Hden'. split; [exact Hden'|]. split; symmetry; assumption.
+Qed.
+
+(* no definition of an unknown message is left (and everything [clean] says, which we do not repeat) *)
+Definition known_def (r : record) : bool :=
+  match r with RDef _ _ gmn _ _ _ => known_msg gmn | _ => true end.
+
+Theorem strip_all_known_defs : forall rs env, forallb known_def (strip_all env rs) = true.
+Proof.
+  induction rs as [|r rs IH]; intros env; [reflexivity|].
+  destruct r as [l be gmn fds devflag devs | l pay dev | l off pay dev]; cbn [strip_all].
+  - destruct (known_msg gmn) eqn:Ek; [|apply IH]. cbn [forallb known_def]. rewrite Ek. apply IH.
+  - destruct (lookup_def env l) as [d|]; [destruct (known_msg (sd_gmn d))|]; cbn [forallb known_def]; apply IH.
+  - destruct (lookup_def env l) as [d|]; cbn [forallb known_def]; apply IH.
+Qed.
+
+Theorem strip_all_stream_wf : forall rs env, stream_wf rs = true -> stream_wf (strip_all env rs) = true.
+Proof.
+  unfold stream_wf. induction rs as [|r rs IH]; intros env H; [reflexivity|].
+  cbn [forallb] in H. apply andb_prop in H. destruct H as [Hr H].
+  destruct r as [l be gmn fds devflag devs | l pay dev | l off pay dev]; cbn [strip_all].
+  - destruct (known_msg gmn); [|apply IH; exact H].
+    cbn [forallb]. rewrite (rec_wf_def _ _ _ _ _ _ Hr). apply IH. exact H.
+  - destruct (lookup_def env l) as [d|]; [destruct (known_msg (sd_gmn d))|]; cbn [forallb].
+    + rewrite (rec_wf_data _ _ _ _ _ Hr). apply IH. exact H.
+    + apply IH. exact H.
+    + rewrite (rec_wf_data_nodev _ _ _ Hr). apply IH. exact H.
+  - destruct (lookup_def env l) as [d|]; cbn [forallb].
+    + rewrite (rec_wf_comp _ _ _ _ _ _ Hr). apply IH. exact H.
+    + rewrite (rec_wf_comp_nodev _ _ _ _ Hr). apply IH. exact H.
+Qed.
+
+Theorem strip_all_starts_with_file_id : forall rs,
+  starts_with_file_id rs = true -> starts_with_file_id (strip_all [] rs) = true.
+Proof.
+  intros rs Hs.
+  destruct rs as [|[l be gmn fds devflag devs| |] [|[| l' pay dev |] rest]]; try discriminate.
+  cbn [starts_with_file_id] in Hs. apply andb_prop in Hs. destruct Hs as [Eg El].
+  apply N.eqb_eq in Eg, El. subst gmn l'.
+  cbn [strip_all]. rewrite known_fileid, lookup_def_cons, N.eqb_refl. cbn [sd_gmn]. rewrite known_fileid.
+  cbn [starts_with_file_id]. rewrite !N.eqb_refl. reflexivity.
+Qed.
+
+Theorem strip_all_in_domain : forall h g rs, no_unknown_comp [] rs = true ->
+  in_domain h g rs -> in_domain h g (strip_all [] rs).
+Proof.
+  intros h g rs Hnc (Hs & Hwf & Hq & ss & f2 & g1 & Hden & Hst).
+  pose proof Hden as Hden0. unfold denote in Hden0.
+  destruct (strip_all_sim rs ss_init ss_init ss st_relk_init Hnc Hden0) as (ss' & Hden' & (_ & _ & Hm) & Hq').
+  split; [exact (strip_all_starts_with_file_id rs Hs)|].
+  split; [exact (strip_all_stream_wf rs [] Hwf)|].
+  split; [exact (Hq' Hq)|].
+  exists ss', f2, g1. split; [exact Hden'|]. rewrite <- Hm. exact Hst.
+Qed.
+
+Theorem unknown_skipped_all_decoder : forall o h g rs, no_unknown_comp [] rs = true -> in_domain h g rs ->
+  decoded_file o h g (strip_all [] rs) = decoded_file o h g rs.
+Proof.
+  intros o h g rs Hnc D. pose proof (strip_all_in_domain h g rs Hnc D) as D'.
+  pose proof D as (_ & _ & _ & ss & _ & _ & Hden & _).
+  destruct (unknown_skipped_all rs ss Hnc Hden) as (ss' & Hden' & Hm & _).
+  exact (same_messages_same_file o h g (strip_all [] rs) rs ss' ss D' D Hden' Hden Hm).
+Qed.
+
+Print Assumptions unknown_skipped.
+Print Assumptions unknown_skipped_decoder.
+Print Assumptions strip_clean.
+Print Assumptions unknown_skipped_all_decoder.
